@@ -1079,3 +1079,5 @@ benign(
     ["C09", "C07"],
     (ZV3, _GRP_ANCHOR, _GRP_ANCHOR + "\n    @property\n    def ndim(self):\n        return len(self.shape)\n\n    @property\n    def nchunks(self):\n        return next(iter(self.values())).nchunks\n\n    @property\n    def nchunks_initialized(self):\n        return min(a.nchunks_initialized for a in self.values())\n"),
 )
+benign("B14i-stage-index-counts-from-one", ["C14"], (OPS, "    for i, stage in enumerate(stages):\n        last_stage = i == len(stages) - 1\n", "    num_stages = len(stages)\n    for i, stage in enumerate(stages, start=1):\n        last_stage = i == num_stages\n"))
+mutant("M14v-stage-index-from-one-test-from-zero", ["C14"], "RECHUNK-PLAN-1", (OPS, "    for i, stage in enumerate(stages):\n", "    for i, stage in enumerate(stages, start=1):\n"))
